@@ -253,6 +253,10 @@ def run(ctx, n_cases: int, n_labels: int, rng=None) -> dict:
         scn, idx = to_scenario(ls, pr)
         scns.append(scn)
     obs_all = life.run_many(scns)
+    # a runner that died or timed out says nothing about the model: retry once
+    for i, o in enumerate(obs_all):
+        if any(x.get('k') in ('runner_dead', 'runner_error', 'scenario_timeout') for x in o):
+            obs_all[i] = life.run_one(scns[i])
     mism = []
     n_eff = 0
     hist: dict[str, int] = {}
